@@ -190,7 +190,10 @@ class Racing:
             if e and not inv_err:
                 inv_err.append(e)
             # name_for_signal inverts the binding
-            inverse_ok = all(sig.name_for_signal(v) == k for k, v in sig.items())
+            try:
+                inverse_ok = all(sig.name_for_signal(v) == k for k, v in sig.items())
+            except Exception as e:  # noqa
+                inverse_ok = "name_for_signal raised %s: %s" % (type(e).__name__, e)
             return {"results": [results.get(i) for i in range(len(p["threads"]))], "final": final,
                     "invariant": inv_err[:1], "inverse_ok": inverse_ok}
 
@@ -216,8 +219,8 @@ class Racing:
         want_names = sorted(set(n for ops in p["threads"] for _, n in ops))
         if sorted(final) != want_names:
             out.append(("C25/threads/final-names", "registered %r, expected %r" % (sorted(final), want_names)))
-        if not o["inverse_ok"]:
-            out.append(("C25/threads/inverse", "name_for_signal does not invert the final registry %r" % (o["final"],)))
+        if o["inverse_ok"] is not True:
+            out.append(("C25/threads/inverse", "name_for_signal does not invert the final registry %r (%s)" % (o["final"], o["inverse_ok"])))
         return out[:3]
 
 
